@@ -46,7 +46,7 @@ Proof.
   - exists []. cbn. rewrite app_nil_r. reflexivity.
   - destruct (parse raw) as [b|]; [|exists []; cbn; rewrite app_nil_r; reflexivity].
     destruct (negb (expected =? b_id b)%N); [exists []; cbn; rewrite app_nil_r; reflexivity|].
-    destruct (b_ts b <? min); [exists [b]; reflexivity|].
+    destruct (fin min b); [exists [b]; reflexivity|].
     destruct (IH (b_parent b) b (acc ++ [b])) as [ext Hext]. exists (b :: ext).
     rewrite Hext, <- app_assoc. reflexivity.
 Qed.
@@ -55,8 +55,8 @@ Lemma client_ext : forall resps min last acc reqs,
   exists ext, fst (fst (client parse resps min last acc reqs)) = acc ++ ext.
 Proof.
   induction resps as [|r resps IH]; intros min last acc reqs; cbn [client].
-  - destruct (b_ts last <? min); exists []; cbn; rewrite app_nil_r; reflexivity.
-  - destruct (b_ts last <? min); [exists []; cbn; rewrite app_nil_r; reflexivity|].
+  - destruct (fin min last); exists []; cbn; rewrite app_nil_r; reflexivity.
+  - destruct (fin min last); [exists []; cbn; rewrite app_nil_r; reflexivity|].
     destruct (r_blocks r) as [raws|]; [|apply IH].
     destruct (consume_ext (r_min r) raws (b_parent last) last acc) as [e1 He1].
     destruct (snd (consume parse (r_min r) (b_parent last) raws last acc)).
@@ -82,15 +82,15 @@ Proof.
   assert (InvC start b (acc ++ [b])) as HI'.
   { destruct HI as [Hc Hl]. split; [|symmetry; apply last_snoc].
     apply chain_snoc; [exact Hc|]. rewrite <- Hl, Heq. exact (ORACLE _ _ Hp). }
-  destruct (b_ts b <? min); [exact HI'|]. apply IH. exact HI'.
+  destruct (fin min b); [exact HI'|]. apply IH. exact HI'.
 Qed.
 
 Lemma client_inv start : forall resps min last acc reqs,
   InvC start last acc -> chain_from tree start (fst (fst (client parse resps min last acc reqs))).
 Proof.
   induction resps as [|r resps IH]; intros min last acc reqs HI; cbn [client].
-  - destruct (b_ts last <? min); exact (proj1 HI).
-  - destruct (b_ts last <? min); [exact (proj1 HI)|].
+  - destruct (fin min last); exact (proj1 HI).
+  - destruct (fin min last); [exact (proj1 HI)|].
     destruct (r_blocks r) as [raws|]; [|apply IH; exact HI].
     pose proof (consume_inv (r_min r) start raws last acc HI) as HI'.
     destruct (snd (consume parse (r_min r) (b_parent last) raws last acc)); [exact (proj1 HI')|].
@@ -98,33 +98,33 @@ Proof.
 Qed.
 
 (* ---- exactness for a constant minimum ---- *)
+(* [l] ends with its first block that passes the completion test (ts < min, or genesis) *)
 Definition below_last (min : Z) (l : list block) : Prop :=
-  exists l' z, l = l' ++ [z] /\ b_ts z < min /\ forall b, In b l' -> min <= b_ts b.
+  exists l' z, l = l' ++ [z] /\ fin min z = true /\ forall b, In b l' -> fin min b = false.
 
 Lemma consume_exact min : forall raws expected last acc,
-  (forall b, In b acc -> min <= b_ts b) -> min <= b_ts last ->
+  (forall b, In b acc -> fin min b = false) -> fin min last = false ->
   let c := consume parse min expected raws last acc in
   if snd c then below_last min (snd (fst c))
-  else (forall b, In b (snd (fst c)) -> min <= b_ts b) /\ min <= b_ts (fst (fst c)).
+  else (forall b, In b (snd (fst c)) -> fin min b = false) /\ fin min (fst (fst c)) = false.
 Proof.
   induction raws as [|raw raws IH]; intros expected last acc Hacc Hl; cbn [consume]; [cbn; tauto|].
   destruct (parse raw) as [b|]; [|cbn; tauto].
   destruct (negb (expected =? b_id b)%N); [cbn; tauto|].
-  destruct (Z.ltb_spec (b_ts b) min) as [Hlt|Hge].
+  destruct (fin min b) eqn:Hf.
   - cbn [snd fst]. exists acc, b. repeat split; assumption.
-  - apply IH; [|exact Hge]. intros x Hx. apply in_app_or in Hx. destruct Hx as [Hx|[<-|[]]]; [apply Hacc; exact Hx | exact Hge].
+  - apply IH; [|exact Hf]. intros x Hx. apply in_app_or in Hx. destruct Hx as [Hx|[<-|[]]]; [apply Hacc; exact Hx | exact Hf].
 Qed.
 
 Lemma client_exact min : forall resps last acc reqs,
   (forall r, In r resps -> r_min r = min) ->
-  (forall b, In b acc -> min <= b_ts b) -> min <= b_ts last ->
+  (forall b, In b acc -> fin min b = false) -> fin min last = false ->
   snd (fst (client parse resps min last acc reqs)) = true ->
   below_last min (fst (fst (client parse resps min last acc reqs))).
 Proof.
-  induction resps as [|r resps IH]; intros last acc reqs Hmin Hacc Hl; cbn [client].
-  - destruct (Z.ltb_spec (b_ts last) min); [lia | discriminate].
-  - destruct (Z.ltb_spec (b_ts last) min); [lia|].
-    rewrite (Hmin r (or_introl eq_refl)).
+  induction resps as [|r resps IH]; intros last acc reqs Hmin Hacc Hl; cbn [client]; rewrite Hl.
+  - discriminate.
+  - rewrite (Hmin r (or_introl eq_refl)).
     assert (forall r', In r' resps -> r_min r' = min) as Hmin' by (intros; apply Hmin; right; assumption).
     destruct (r_blocks r) as [raws|]; [|apply IH; assumption].
     pose proof (consume_exact min raws (b_parent last) last acc Hacc Hl) as Hc. cbn zeta in Hc.
@@ -133,7 +133,8 @@ Proof.
     + destruct Hc as [Hacc' Hl']. apply IH; assumption.
 Qed.
 
-(* ---- F-22: stuck at a block whose parent id names no block (genesis) ---- *)
+(* ---- stuck at a non-genesis block whose parent id names no block (before the F-22 fix this
+   also covered genesis itself) ---- *)
 Lemma consume_stuck min last acc : tree (b_parent last) = None ->
   forall raws, consume parse min (b_parent last) raws last acc = (last, acc, false).
 Proof.
@@ -145,15 +146,14 @@ Qed.
 
 Lemma client_stuck last acc : tree (b_parent last) = None ->
   forall resps min reqs,
-  min <= b_ts last -> (forall r, In r resps -> r_min r <= b_ts last) ->
+  fin min last = false -> (forall r, In r resps -> fin (r_min r) last = false) ->
   client parse resps min last acc reqs =
     (acc, false, reqs ++ repeat (pred64 (b_height last)) (length resps)).
 Proof.
-  intros Hnone. induction resps as [|r resps IH]; intros min reqs Hmin Hr; cbn [client length repeat].
-  - destruct (Z.ltb_spec (b_ts last) min); [lia|]. rewrite app_nil_r. reflexivity.
-  - destruct (Z.ltb_spec (b_ts last) min); [lia|].
-    assert (r_min r <= b_ts last) as Hr0 by (apply Hr; left; reflexivity).
-    assert (forall r', In r' resps -> r_min r' <= b_ts last) as Hr' by (intros; apply Hr; right; assumption).
+  intros Hnone. induction resps as [|r resps IH]; intros min reqs Hmin Hr; cbn [client length repeat]; rewrite Hmin.
+  - rewrite app_nil_r. reflexivity.
+  - assert (fin (r_min r) last = false) as Hr0 by (apply Hr; left; reflexivity).
+    assert (forall r', In r' resps -> fin (r_min r') last = false) as Hr' by (intros; apply Hr; right; assumption).
     destruct (r_blocks r) as [raws|].
     + rewrite (consume_stuck (r_min r) last acc Hnone raws). cbn [fst snd].
       rewrite (IH (r_min r) _ Hr0 Hr'), <- app_assoc. reflexivity.
@@ -162,14 +162,13 @@ Qed.
 
 (* ---- progress: a response that starts with the real next ancestor extends the prefix ---- *)
 Lemma client_progress r resps min last acc reqs raw rest b :
-  min <= b_ts last ->
+  fin min last = false ->
   r_blocks r = Some (raw :: rest) -> parse raw = Some b -> b_id b = b_parent last ->
   exists tail, fst (fst (client parse (r :: resps) min last acc reqs)) = acc ++ b :: tail.
 Proof.
-  intros Hmin Hr Hp Hid. cbn [client].
-  destruct (Z.ltb_spec (b_ts last) min); [lia|].
+  intros Hmin Hr Hp Hid. cbn [client]. rewrite Hmin.
   rewrite Hr. cbn [consume]. rewrite Hp, Hid, N.eqb_refl. cbn [negb].
-  destruct (b_ts b <? r_min r).
+  destruct (fin (r_min r) b).
   - cbn [snd fst]. exists []. reflexivity.
   - destruct (consume_ext (r_min r) rest (b_parent b) b (acc ++ [b])) as [e1 He1].
     destruct (snd (consume parse (r_min r) (b_parent b) rest b (acc ++ [b]))).
@@ -335,7 +334,7 @@ Proof.
       cbn [firstn] in Hp. rewrite app_nil_r in Hp.
       assert (In za lb') as Hin.
       { apply (in_firstn_in (length la' + 1)). rewrite <- Hp. apply in_or_app. right. left. reflexivity. }
-      apply Hlb in Hin. lia. }
+      apply Hlb in Hin. congruence. }
   destruct (Nat.le_ge_cases (length l1) (length l2)) as [Hle|Hle].
   - apply Hgen; assumption.
   - symmetry. apply Hgen; assumption.
@@ -349,7 +348,7 @@ Variable R : Type.
 Variable parse : R -> option block.
 
 Fixpoint client_st (resps : list (resp R)) (min : Z) (last : block) (acc : list block) (reqs : list N) : cstate :=
-  if b_ts last <? min then mkCS min last acc reqs true
+  if fin min last then mkCS min last acc reqs true
   else match resps with
        | [] => mkCS min last acc reqs false
        | r :: rest =>
@@ -369,8 +368,8 @@ Lemma client_st_proj : forall resps min last acc reqs,
    cs_reqs (client_st resps min last acc reqs)).
 Proof.
   induction resps as [|r resps IH]; intros min last acc reqs; cbn [client client_st].
-  - destruct (b_ts last <? min); reflexivity.
-  - destruct (b_ts last <? min); [reflexivity|].
+  - destruct (fin min last); reflexivity.
+  - destruct (fin min last); [reflexivity|].
     destruct (r_blocks r) as [raws|]; [|apply IH].
     destruct (snd (consume parse (r_min r) (b_parent last) raws last acc)); [reflexivity | apply IH].
 Qed.
@@ -383,9 +382,9 @@ Lemma client_st_app : forall r1 r2 min last acc reqs,
   client_st (r1 ++ r2) min last acc reqs = resume (client_st r1 min last acc reqs) r2.
 Proof.
   induction r1 as [|r r1 IH]; intros r2 min last acc reqs; cbn [app].
-  - unfold resume. cbn [client_st]. destruct (b_ts last <? min) eqn:E; cbn [cs_closed]; [|reflexivity].
+  - unfold resume. cbn [client_st]. destruct (fin min last) eqn:E; cbn [cs_closed]; [|reflexivity].
     destruct r2; cbn [client_st]; rewrite E; reflexivity.
-  - cbn [client_st]. destruct (b_ts last <? min); [reflexivity|].
+  - cbn [client_st]. destruct (fin min last); [reflexivity|].
     destruct (r_blocks r) as [raws|]; [|apply IH].
     destruct (snd (consume parse (r_min r) (b_parent last) raws last acc)); [reflexivity | apply IH].
 Qed.
@@ -393,11 +392,11 @@ Qed.
 (* the state at loop head, when the channel is still open, is not below the minimum *)
 Lemma client_st_open : forall resps min last acc reqs,
   cs_closed (client_st resps min last acc reqs) = false ->
-  b_ts (cs_last (client_st resps min last acc reqs)) <? cs_min (client_st resps min last acc reqs) = false.
+  fin (cs_min (client_st resps min last acc reqs)) (cs_last (client_st resps min last acc reqs)) = false.
 Proof.
   induction resps as [|r resps IH]; intros min last acc reqs; cbn [client_st].
-  - destruct (b_ts last <? min) eqn:E; cbn [cs_closed cs_last cs_min]; [discriminate | intros _; exact E].
-  - destruct (b_ts last <? min) eqn:E; cbn [cs_closed]; [discriminate|].
+  - destruct (fin min last) eqn:E; cbn [cs_closed cs_last cs_min]; [discriminate | intros _; exact E].
+  - destruct (fin min last) eqn:E; cbn [cs_closed]; [discriminate|].
     destruct (r_blocks r) as [raws|]; [|apply IH].
     destruct (snd (consume parse (r_min r) (b_parent last) raws last acc)); cbn [cs_closed]; [discriminate | apply IH].
 Qed.
@@ -407,8 +406,8 @@ Lemma client_st_min min : forall resps last acc reqs,
   (forall r, In r resps -> r_min r = min) -> cs_min (client_st resps min last acc reqs) = min.
 Proof.
   induction resps as [|r resps IH]; intros last acc reqs Hm; cbn [client_st].
-  - destruct (b_ts last <? min); reflexivity.
-  - destruct (b_ts last <? min); [reflexivity|].
+  - destruct (fin min last); reflexivity.
+  - destruct (fin min last); [reflexivity|].
     rewrite (Hm r (or_introl eq_refl)).
     assert (forall r', In r' resps -> r_min r' = min) as Hm' by (intros; apply Hm; right; assumption).
     destruct (r_blocks r) as [raws|]; [|apply IH; exact Hm'].
@@ -426,7 +425,7 @@ Proof.
   induction raws as [|raw raws IH]; intros expected last acc b; cbn [consume]; [cbn; tauto|].
   destruct (parse raw) as [b0|] eqn:Hp; [|cbn; tauto].
   destruct (negb (expected =? b_id b0)%N); [cbn; tauto|].
-  destruct (b_ts b0 <? min).
+  destruct (fin min b0).
   - cbn [snd fst]. intros Hin. apply in_app_or in Hin. destruct Hin as [Hin|[<-|[]]]; [left; exact Hin|].
     right. exists raw. split; [left; reflexivity | exact Hp].
   - intros Hin. apply IH in Hin. destruct Hin as [Hin|[raw' [Hr Hp']]].
@@ -439,8 +438,8 @@ Lemma client_st_parsed : forall resps min last acc reqs b,
   In b (cs_acc (client_st resps min last acc reqs)) -> In b acc \/ from_resps resps b.
 Proof.
   induction resps as [|r resps IH]; intros min last acc reqs b; cbn [client_st].
-  - destruct (b_ts last <? min); cbn; tauto.
-  - destruct (b_ts last <? min); [cbn; tauto|].
+  - destruct (fin min last); cbn; tauto.
+  - destruct (fin min last); [cbn; tauto|].
     assert (forall b, from_resps resps b -> from_resps (r :: resps) b) as Hmono.
     { intros b0 [r0 [raws [raw [Hr H]]]]. exists r0, raws, raw. split; [right; exact Hr | exact H]. }
     destruct (r_blocks r) as [raws|] eqn:Hrb.
@@ -457,13 +456,13 @@ Qed.
 (* while the channel is open (constant minimum) nothing emitted is below the minimum *)
 Lemma client_st_open_ge min : forall resps last acc reqs,
   (forall r, In r resps -> r_min r = min) ->
-  (forall b, In b acc -> min <= b_ts b) ->
+  (forall b, In b acc -> fin min b = false) ->
   cs_closed (client_st resps min last acc reqs) = false ->
-  forall b, In b (cs_acc (client_st resps min last acc reqs)) -> min <= b_ts b.
+  forall b, In b (cs_acc (client_st resps min last acc reqs)) -> fin min b = false.
 Proof.
   induction resps as [|r resps IH]; intros last acc reqs Hm Hacc; cbn [client_st].
-  - destruct (b_ts last <? min); cbn [cs_closed cs_acc]; [discriminate | intros _; exact Hacc].
-  - destruct (Z.ltb_spec (b_ts last) min) as [Hlt|Hge]; cbn [cs_closed]; [discriminate|].
+  - destruct (fin min last); cbn [cs_closed cs_acc]; [discriminate | intros _; exact Hacc].
+  - destruct (fin min last) eqn:Hge; cbn [cs_closed]; [discriminate|].
     rewrite (Hm r (or_introl eq_refl)).
     assert (forall r', In r' resps -> r_min r' = min) as Hm' by (intros; apply Hm; right; assumption).
     destruct (r_blocks r) as [raws|]; [|apply IH; assumption].
@@ -480,8 +479,8 @@ Lemma client_st_inv start : forall resps min last acc reqs,
   InvC tree start (cs_last (client_st resps min last acc reqs)) (cs_acc (client_st resps min last acc reqs)).
 Proof.
   induction resps as [|r resps IH]; intros min last acc reqs HI; cbn [client_st].
-  - destruct (b_ts last <? min); exact HI.
-  - destruct (b_ts last <? min); [exact HI|].
+  - destruct (fin min last); exact HI.
+  - destruct (fin min last); [exact HI|].
     destruct (r_blocks r) as [raws|]; [|apply IH; exact HI].
     pose proof (consume_inv R parse tree ORACLE (r_min r) start raws last acc HI) as HI'.
     destruct (snd (consume parse (r_min r) (b_parent last) raws last acc)); [exact HI' | apply IH; exact HI'].
@@ -502,18 +501,18 @@ Qed.
 
 (* ---- exactness, both directions (constant minimum) ---- *)
 Lemma client_closed_iff start min resps :
-  (forall r, In r resps -> r_min r = min) -> min <= b_ts start ->
+  (forall r, In r resps -> r_min r = min) -> fin min start = false ->
   let out := fst (fst (client parse resps min start [] [])) in
   (snd (fst (client parse resps min start [] [])) = true <-> below_last min out) /\
-  (snd (fst (client parse resps min start [] [])) = false -> forall b, In b out -> min <= b_ts b).
+  (snd (fst (client parse resps min start [] [])) = false -> forall b, In b out -> fin min b = false).
 Proof.
   intros Hm Hs. cbn zeta. split; [split|].
-  - apply (client_exact R parse tree ORACLE min); [exact Hm | intros b [] | exact Hs].
+  - apply (client_exact R parse min); [exact Hm | intros b [] | exact Hs].
   - intros [l' [z [Heq [Hz _]]]].
     destruct (snd (fst (client parse resps min start [] []))) eqn:Hc; [reflexivity|]. exfalso.
     rewrite client_st_proj in Hc, Heq. cbn [fst snd] in Hc, Heq.
     pose proof (client_st_open_ge min resps start [] [] Hm (fun b (H : In b []) => match H with end) Hc z) as Hge.
-    rewrite Heq in Hge. assert (In z (l' ++ [z])) as Hin by (apply in_or_app; right; left; reflexivity). specialize (Hge Hin). lia.
+    rewrite Heq in Hge. assert (In z (l' ++ [z])) as Hin by (apply in_or_app; right; left; reflexivity). specialize (Hge Hin). congruence.
   - intros Hc b Hin. rewrite client_st_proj in Hc, Hin. cbn [fst snd] in Hc, Hin.
     exact (client_st_open_ge min resps start [] [] Hm (fun b (H : In b []) => match H with end) Hc b Hin).
 Qed.
@@ -527,7 +526,7 @@ Definition serves (r : resp R) (expected : N) : Prop :=
   exists raw rest b, r_blocks r = Some (raw :: rest) /\ parse raw = Some b /\ b_id b = expected.
 
 Lemma client_step_progress start min pre r :
-  (forall r', In r' (pre ++ [r]) -> r_min r' = min) -> min <= b_ts start ->
+  (forall r', In r' (pre ++ [r]) -> r_min r' = min) -> fin min start = false ->
   snd (fst (client parse pre min start [] [])) = false ->
   serves r (next_expected start min pre) ->
   exists b tail, b_id b = next_expected start min pre /\
@@ -541,8 +540,8 @@ Proof.
   pose proof (client_st_inv start pre min start [] [] (conj (cf_nil tree start) eq_refl)) as [_ Hl]. fold s in Hl.
   rewrite <- Hl in Hid.
   pose proof (client_st_open pre min start [] [] Hopen) as Hge. fold s in Hge.
-  destruct (client_progress R parse tree ORACLE r [] (cs_min s) (cs_last s) (cs_acc s) (cs_reqs s) raw rest b) as [tail Ht];
-    [lia | exact Hr | exact Hp | exact Hid |].
+  destruct (client_progress R parse r [] (cs_min s) (cs_last s) (cs_acc s) (cs_reqs s) raw rest b) as [tail Ht];
+    [exact Hge | exact Hr | exact Hp | exact Hid |].
   rewrite client_st_proj in Ht. cbn [fst] in Ht. exists b, tail. split; [rewrite <- Hl; exact Hid | exact Ht].
 Qed.
 
@@ -569,7 +568,7 @@ Lemma closed_stable min start pre r :
 Proof. intros H. rewrite client_st_app. unfold resume. rewrite H. exact H. Qed.
 
 Lemma client_completes start min full :
-  chain_from tree start full -> below_last min full -> min <= b_ts start ->
+  chain_from tree start full -> below_last min full -> fin min start = false ->
   forall pre rest n, serving_run start min pre rest n ->
   (forall r, In r (pre ++ rest) -> r_min r = min) ->
   (length full <= length (cs_acc (client_st pre min start [] [])) + n)%nat ->
@@ -585,7 +584,7 @@ Proof.
     pose proof (chain_from_prefix tree _ _ _ Hfull Hch Hlen') as Hp.
     assert (In z (cs_acc (client_st pre min start [] []))) as Hin.
     { apply (in_firstn_in (length full)). rewrite <- Hp, Heq. apply in_or_app. right. left. reflexivity. }
-    apply Hge in Hin. lia.
+    apply Hge in Hin. congruence.
   - rewrite (app_assoc pre [r] rest : pre ++ r :: rest = (pre ++ [r]) ++ rest) in *. apply IH; [exact Hm|].
     destruct (emitted_mono min start pre r) as [ext He]. rewrite He, app_length. lia.
   - rewrite (app_assoc pre [r] rest : pre ++ r :: rest = (pre ++ [r]) ++ rest) in *.
@@ -604,7 +603,7 @@ Qed.
 (* final form: a fault sequence containing at least |full| serving responses completes, and then
    the emitted blocks are exactly [full] *)
 Lemma client_liveness start min full resps n :
-  chain_from tree start full -> below_last min full -> min <= b_ts start ->
+  chain_from tree start full -> below_last min full -> fin min start = false ->
   (forall r, In r resps -> r_min r = min) ->
   serving_run start min [] resps n -> (length full <= n)%nat ->
   client parse resps min start [] [] = (full, true, snd (client parse resps min start [] [])).
@@ -675,10 +674,12 @@ Lemma syncer_spec idx w W target resps :
                em_has (seen (fst (fst p))) x = true \/
                exists b e, In b saved /\ In (x, e) (b_items b) /\ e <> 0) /\
     (snd p = true -> saved = [] /\ snd (fst s) = true) /\
-    (snd p = false -> (forall r, In r resps -> r_min r = min) -> min <= b_ts target ->
+    (snd p = false -> (forall r, In r resps -> r_min r = min) ->
        (forall b, In b local -> min <= b_ts b) /\
-       (snd (fst s) = true <-> below_last min (local ++ saved)) /\
-       (snd (fst s) = false -> forall b, In b saved -> min <= b_ts b)).
+       (fin min (last local target) = true -> saved = [] /\ snd (fst s) = true) /\
+       (fin min (last local target) = false ->
+          (snd (fst s) = true <-> below_last min saved) /\
+          (snd (fst s) = false -> forall b, In b saved -> fin min b = false))).
 Proof.
   intros Hsub. cbn zeta. unfold syncer, populate. cbn [fst snd].
   destruct (pop_walk idx (oldest_allowed W (b_ts target)) (fuel_of target) target [target]) as [L c] eqn:Hpw.
@@ -696,26 +697,15 @@ Proof.
     pose proof (client_prefix R parse tree ORACLE oldest resps min) as [Hanc Hparsed]. cbn zeta in Hanc, Hparsed.
     split; [|split; [exact Hparsed|split; [apply historical_tracked|split; [discriminate|]]]].
     + apply chain_from_app; [exact Hch|]. rewrite <- Hold. apply chain_from_ancestors. exact Hanc.
-    + intros _ Hm Ht. specialize (Hge eq_refl).
-      assert (min <= b_ts oldest) as Ho.
-      { rewrite Hold. destruct local as [|a local] using rev_ind; [exact Ht|].
-        rewrite last_snoc. apply Hge. apply in_or_app. right. left. reflexivity. }
-      pose proof (client_closed_iff R parse tree ORACLE oldest min resps Hm Ho) as [Hiff Hopen]. cbn zeta in Hiff, Hopen.
-      split; [exact Hge|]. split; [|exact Hopen].
-      rewrite Hiff. split.
-      * intros [l' [z [Heq [Hz Hl']]]]. exists (local ++ l'), z. split; [rewrite Heq, app_assoc; reflexivity|].
-        split; [exact Hz|]. intros b Hin. apply in_app_or in Hin. destruct Hin as [Hin|Hin]; [apply Hge | apply Hl']; exact Hin.
-      * intros [l' [z [Heq [Hz Hl']]]].
-        destruct (fst (fst (client parse resps min oldest [] []))) as [|s0 sv] eqn:Hsv using rev_ind.
-        -- exfalso. rewrite app_nil_r in Heq. assert (In z local) as Hin by (rewrite Heq; apply in_or_app; right; left; reflexivity).
-           apply Hge in Hin. lia.
-        -- clear IHsv. rewrite app_assoc in Heq. apply app_inj_tail in Heq. destruct Heq as [Heq ->].
-           exists sv, z. split; [reflexivity|]. split; [exact Hz|].
-           intros b Hin. apply Hl'. rewrite <- Heq. apply in_or_app. right. exact Hin.
+    + intros _ Hm. specialize (Hge eq_refl). rewrite <- Hold. split; [exact Hge|]. split.
+      * intros Hf. destruct resps as [|r0 resps0]; cbn [client]; rewrite Hf; split; reflexivity.
+      * intros Hf. exact (client_closed_iff R parse oldest min resps Hm Hf).
 Qed.
 End Syncer.
 
-(* ---- F-22: once genesis has been received and genesis.ts >= min, the client never completes ---- *)
+(* ---- F-22 (repaired by the fix commit in /repo): once genesis has been received the client completes,
+   also when genesis.ts >= min.  Before the fix this configuration never completed: the client kept
+   requesting height 2^64-1 for every continuation of the fault sequence. ---- *)
 Definition f22_genesis : block := mkB 10 0 0 5 [(7%N, 9)].
 Definition f22_start : block := mkB 11 10 1 6 [].
 Definition f22_tree : index := tree_of [f22_genesis; f22_start].
@@ -725,17 +715,12 @@ Definition f22_serve : resp unit := mkResp 2 (Some [tt]).
 Lemma f22_oracle : forall r b, f22_parse r = Some b -> f22_tree (b_id b) = Some b.
 Proof. intros r b H. inversion H; subst. reflexivity. Qed.
 
-Lemma f22_never_completes : forall resps : list (resp unit),
-  (forall r, In r resps -> r_min r = 2) ->
-  client f22_parse (f22_serve :: resps) 2 f22_start [] [] =
-    ([f22_genesis], false, 0%N :: repeat (two64 - 1)%N (length resps)).
-Proof.
-  intros resps Hm. cbn [client]. change (b_ts f22_start <? 2) with false. cbv iota.
-  change (r_blocks f22_serve) with (Some [tt]). cbv iota.
-  change (consume f22_parse (r_min f22_serve) (b_parent f22_start) [tt] f22_start [])
-    with (f22_genesis, [f22_genesis], false). cbn [fst snd]. cbv iota.
-  rewrite (client_stuck unit f22_parse f22_tree f22_oracle f22_genesis [f22_genesis] eq_refl resps (r_min f22_serve)).
-  - reflexivity.
-  - cbn. lia.
-  - intros r Hin. rewrite (Hm r Hin). cbn. lia.
-Qed.
+Lemma f22_completes : forall resps : list (resp unit),
+  client f22_parse (f22_serve :: resps) 2 f22_start [] [] = ([f22_genesis], true, [0%N]).
+Proof. intros resps. reflexivity. Qed.
+
+(* readable form of the completion test *)
+Lemma fin_true min b : fin min b = true <-> b_ts b < min \/ b_height b = 0%N.
+Proof. unfold fin. rewrite orb_true_iff, Z.ltb_lt, N.eqb_eq. tauto. Qed.
+Lemma fin_false min b : fin min b = false <-> min <= b_ts b /\ b_height b <> 0%N.
+Proof. unfold fin. rewrite orb_false_iff, Z.ltb_ge, N.eqb_neq. tauto. Qed.
